@@ -34,9 +34,7 @@ fcppt::intrusive::list<Type> &fcppt::intrusive::list<Type>::operator=(list &&_ot
 
   if (_other.empty())
   {
-    this->head_.next_ = &this->head_;
-
-    this->head_.prev_ = &this->head_;
+    this->head_.unlink();
   }
   else
   {
